@@ -90,7 +90,10 @@ func c14History(a c14Alg, msg []byte, chunks []int, sumAt map[int]bool, prefix [
 		}
 		pos += len(chunk)
 		if sumAt[step] {
-			pcopy := append([]byte{}, prefix...)
+			// the prefix slice has spare capacity holding stale bytes on odd steps
+			pbuf := filled(len(prefix) + (step%2)*(a.size+3))
+			copy(pbuf, prefix)
+			pcopy := pbuf[:len(prefix)]
 			got := h.Sum(pcopy)
 			want := append(append([]byte{}, prefix...), a.ref(msg[:pos])...)
 			if !bytes.Equal(got, want) {
@@ -186,6 +189,7 @@ func TestC14(t *testing.T) {
 	pyCap := ev.Scale(60, 400)
 
 	rapid.Check(t, func(rt *rapid.T) {
+		stc := setStale(rt)
 		a := c14Algs[rapid.IntRange(0, 1).Draw(rt, "alg")]
 		n, lc := lenMix(rt, "len", 2000, 25, 64, 128)
 		if rapid.IntRange(0, 2).Draw(rt, "padDirected") == 0 {
@@ -240,12 +244,13 @@ func TestC14(t *testing.T) {
 		pad := c14PadClass(n)
 		nontrivial := (len(chunks) >= 2 && nsums > 0) || pad == "mod64=55" || pad == "mod64=56" || pad == "mod64=57" || pad == "mod64=63" || pad == "mod64=0" || pad == "mod64=1"
 		key := fmt.Sprintf("%s|%s|%d|%d|%d|%v|%v", a.name, pad, min(n/64, 8), min(len(chunks), 6), min(nsums, 4), reset, prefix != nil)
-		c.Case(nontrivial, key, "alg="+a.name, pad, lc, fc, fmt.Sprintf("midSums=%d", min(nsums, 4)), fmt.Sprintf("chunks=%d", min(len(chunks), 6)))
+		c.Case(nontrivial, key, "alg="+a.name, pad, lc, fc, stc, fmt.Sprintf("midSums=%d", min(nsums, 4)), fmt.Sprintf("chunks=%d", min(len(chunks), 6)))
 		if c.WantSample() {
 			c.Sample(map[string]any{"alg": a.name, "len": n, "chunks": chunks, "sum_at_steps": keysOf(sumAt), "prefix_len": len(prefix), "reset": reset, "msg": ev.Hex(msg)})
 		}
 	})
 
+	staleSeed = 0x9e3779b97f4a7c15
 	// Directed: every length 0..L, written whole, in two parts at every split
 	// point class (with a Sum at the split), and byte-by-byte.
 	maxLen := ev.Scale(200, 520)
@@ -266,6 +271,12 @@ func TestC14(t *testing.T) {
 					plans = append(plans, []int{cut, l - cut})
 				}
 			}
+			if l <= 140 {
+				// a Sum (twice) then Write at every buffered length: cut at every position
+				for cut := 0; cut <= l; cut++ {
+					plans = append(plans, []int{cut, l - cut})
+				}
+			}
 			ones := make([]int, l)
 			for i := range ones {
 				ones[i] = 1
@@ -283,7 +294,7 @@ func TestC14(t *testing.T) {
 			c.Evals(len(plans) - 1)
 		}
 	}
-	c.Exhaustive(fmt.Sprintf("md4, ripemd160 x every length 0..%d x {whole, 2 parts at 1/55/56/63/64/65/half/len-1 with a Sum at the cut, byte-by-byte up to 130}", maxLen), total)
+	c.Exhaustive(fmt.Sprintf("md4, ripemd160 x every length 0..%d x {whole, 2 parts with Sum, Sum, Write at the cut: every cut for lengths <= 140, else 1/55/56/63/64/65/half/len-1; byte-by-byte up to 130}", maxLen), total)
 
 	// python3 hashlib as one batched co-process (RIPEMD-160 only: this OpenSSL
 	// build does not expose MD4 to hashlib).
